@@ -25,11 +25,11 @@ FEATURES = ["enc_meta", "enc_set_meta", "uni_esc", "esc_dollar", "multi", "multi
 PLANS: Dict[Tuple[str, str], Dict[str, Any]] = {
     ("C13", "quick"): {"cfg": "XsdGen.cfg", "take": {"pat": 420, "multi": 160, "len": 260}, "r_budget": 42, "min_done": 10,
                        "opts": {"max_len": 4, "max_str": 3, "max_strings": 130, "mutations": False, "gen_timeout": 15}},
-    ("C13", "thorough"): {"cfg": "XsdGen_thorough.cfg", "take": {"pat": 100000, "multi": 2600, "len": 2400}, "r_budget": 470, "min_done": 100,
-                          "opts": {"max_len": 5, "max_str": 3, "max_strings": 260, "mutations": False, "gen_timeout": 30}},
+    ("C13", "thorough"): {"cfg": "XsdGen_thorough.cfg", "take": {"pat": 100000, "multi": 2600, "len": 2400}, "r_budget": 380, "min_done": 100,
+                          "opts": {"max_len": 5, "max_str": 3, "max_strings": 200, "mutations": False, "gen_timeout": 30}},
     ("C14", "quick"): {"cfg": "XsdGen.cfg", "take": {"pat": 170, "multi": 70, "len": 520}, "r_budget": 42, "min_done": 10,
                        "opts": {"max_len": 4, "max_str": 3, "max_strings": 110, "mutations": True, "gen_timeout": 15}},
-    ("C14", "thorough"): {"cfg": "XsdGen_thorough.cfg", "take": {"pat": 1500, "multi": 900, "len": 6500}, "r_budget": 470, "min_done": 100,
+    ("C14", "thorough"): {"cfg": "XsdGen_thorough.cfg", "take": {"pat": 1500, "multi": 900, "len": 6500}, "r_budget": 380, "min_done": 100,
                           "opts": {"max_len": 5, "max_str": 3, "max_strings": 200, "mutations": True, "gen_timeout": 30}},
 }
 
